@@ -6,6 +6,7 @@ import (
 
 	"pgregory.net/rapid"
 
+	"verif/harness/oracle"
 	"verif/harness/sc"
 )
 
@@ -377,23 +378,18 @@ func RunSteps(t *rapid.T, s *sc.Scenario, pr Profile) *sc.History {
 	return e.Finish()
 }
 
-// pendingInstance: the process is registered but has not launched anything yet
+// pendingInstance: the process has an instance that has not launched anything yet
 // (waiting for its dependencies, possibly already stopped there).
 func pendingInstance(e *sc.Exec, proc string) bool {
 	sp := e.Sc.Spec(proc)
-	if sp == nil || sp.Disabled || sp.Foreground || len(sp.Deps) == 0 {
+	if sp == nil {
 		return false
 	}
 	if len(e.W.LiveCmds(proc)) > 0 {
 		return false
 	}
-	last := ""
-	for _, ev := range e.W.Events() {
-		if ev.Proc == proc && ev.Kind == "state" {
-			last = ev.Text
-		}
-	}
-	return last == "" || last == "Pending" || last == "Terminating"
+	evs := e.W.Events()
+	return oracle.PendingInstanceAt(evs, proc, len(evs), !sp.Disabled && !sp.Foreground)
 }
 
 func shutdownBegan(e *sc.Exec) bool {
